@@ -35,6 +35,9 @@ pub struct Lexer<CharIter: Iterator<Item = char>> {
     pub current: Option<char>,
     pub peekable_char_stream: Peekable<CharIter>,
     location: [u32; 2],
+    /// false: tokens carry no location (for sources other than the program, whose line
+    /// and column would otherwise be reported as positions in the program)
+    pub locate_tokens: bool,
 }
 
 impl<CharIter: Iterator<Item = char>> Iterator for Lexer<CharIter> {
@@ -42,7 +45,11 @@ impl<CharIter: Iterator<Item = char>> Iterator for Lexer<CharIter> {
     fn next(&mut self) -> Option<Self::Item> {
         match self.try_next() {
             Ok(None) => None,
-            Ok(Some(data)) => Some(Ok(data.locate(Some(self.location)))),
+            Ok(Some(data)) => Some(Ok(data.locate(if self.locate_tokens {
+                Some(self.location)
+            } else {
+                None
+            }))),
             Err(e) => Some(Err(e)),
         }
     }
@@ -75,6 +82,7 @@ impl<CharIter: Iterator<Item = char>> Lexer<CharIter> {
             current: None,
             peekable_char_stream: char_stream.peekable(),
             location: [1, 1],
+            locate_tokens: true,
         }
     }
 
